@@ -40,6 +40,7 @@ Inductive event :=
 | EView (tf cf : option N) (v : list lts)               (* /stats under filters / in text form, right after a snapshot *)
 | EFiles (owners : list (N * list N))                   (* disk-queue files in the data path: topic id, and per topic 0 = the topic's own queue, c = channel c *)
 | ERestart                                              (* graceful Exit, new daemon on the same data path *)
+| EAcked (o : op) (r : resp)                            (* an operation answered while the daemon was already closing for the ERestart that follows *)
 | EHung.                                                (* the daemon (or a request to it) stopped answering: the case was abandoned here *)
 
 (* [hidden]: consumers whose counters are not compared (used by the forced-interleaving
@@ -158,6 +159,7 @@ Definition replay_step_h (hid : list N) (cf : config) (s : state) (pend : option
   | EView _ _ _ => Some (s, pend)
   | EFiles _ => Some (s, pend)
   | EHung => Some (s, None)
+  | EAcked _ _ => None   (* rewritten by linearize before the replay *)
   | ERestart => Some (restart s, pend)
   end.
 Definition replay_step := replay_step_h [].
@@ -197,7 +199,24 @@ Fixpoint state_before (cf : config) (s : state) (pend : option (N * N * bool * l
       end
   end.
 
-Definition agree (c : case) : bool := replay_h (hidden c) (cfg c) init None (events c).
+(* A publish accepted by a topic whose pump has already stopped for a graceful Exit stays in
+   the topic's queue, is flushed with it, and reaches the channels when the new daemon's pump
+   starts.  "The pump has stopped" is what a paused topic is in the model, so the replay reads
+   such a publish (EAcked; the harness uses it for an unpaused topic only) as
+   pause; publish; ... restart; unpause.  The monitor reads it as the publish it is, answered
+   before the restart. *)
+Fixpoint linearize (held : list event) (evs : list event) : list event :=
+  match evs with
+  | [] => held
+  | EAcked (OPub t teph ids b d now) r :: rest =>
+      EOp (OPauseTopic t true now) ROk :: EOp (OPub t teph ids b d now) r
+      :: linearize (held ++ [EOp (OPauseTopic t false now) ROk]) rest
+  | EAcked o r :: rest => EOp o r :: linearize held rest
+  | ERestart :: rest => ERestart :: held ++ linearize [] rest
+  | e :: rest => e :: linearize held rest
+  end.
+
+Definition agree (c : case) : bool := replay_h (hidden c) (cfg c) init None (linearize [] (events c)).
 
 (* ------------------------------------------------------------------ monitor: trace-only ledger *)
 Record mstat := mkMS { ms_holder : option N; ms_att : N; ms_fin : bool; ms_dead : bool;
@@ -753,7 +772,7 @@ Fixpoint mon_run (g : ledger) (prev : option event) (after_restart : bool) (evs 
   | e :: rest =>
       let g := g <| g_idx ::= N.succ |> in
       match e with
-      | EOp o r => mon_run (mon_op g o r) (Some e) after_restart rest
+      | EOp o r | EAcked o r => mon_run (mon_op g o r) (Some e) after_restart rest
       | EExpired t c infl ids => mon_run (mon_expired g t c infl ids) prev after_restart rest
       | EClosed _ => mon_run g prev after_restart rest
       | ESnap ts ks =>
@@ -767,7 +786,11 @@ Fixpoint mon_run (g : ledger) (prev : option event) (after_restart : bool) (evs 
           (* a daemon that stops answering delivers nothing more (C01, C03), cannot be shut
              down gracefully (C05) and has deadlocked on whatever was in progress (C08) *)
           mon_run (flag 1 false (flag 3 false (flag 5 false (flag 8 false g)))) prev after_restart rest
-      | ERestart => mon_run (mon_restart g) None true rest
+      | ERestart =>
+          (* an operation answered after the last snapshot (a publish acknowledged while the
+             daemon was shutting down): that snapshot no longer says what must be carried *)
+          let g := match prev with Some _ => g <| g_last := None |> | None => g end in
+          mon_run (mon_restart g) None true rest
       end
   end.
 
@@ -793,6 +816,6 @@ Definition monitor (p : N) (c : case) : bool :=
 
 Definition judge_for (p : N) (c : case) : N := verdict (agree c) (monitor p c).
 
-Definition diag (c : case) : N * list N := (replay_diag_h (hidden c) (cfg c) init None (events c) 0, flags_of c).
+Definition diag (c : case) : N * list N := (replay_diag_h (hidden c) (cfg c) init None (linearize [] (events c)) 0, flags_of c).
 Definition mon_where (c : case) : list (N * N) :=
   g_where (mon_final (mon_run (mkL [] [] [] None false [] (hidden c) None [] 0 [] 0%Z (max_msg_timeout (cfg c))) None false (events c))).
